@@ -1995,7 +1995,7 @@ class EArray(Engine):
         return {'k': 'astype', 'dt2': pick_dtype(g, numeric=True if (self.dt.cls != 'other' and g.chance(0.8)) else None)}
 
 
-QUICK_RUNS = 55000
+QUICK_RUNS = 50000
 THOROUGH_RUNS = 750000
 
 
